@@ -1223,12 +1223,80 @@ func c12SizeCaps(c *Ctx) {
 			}
 		}
 	}
-	// a sink on a parameter of an unexported helper is an obligation of the helper's callers
+	// capped: the sink is reachable only through `D.Size <= K` with K a positive constant — or K an integer parameter of the
+	// (unexported, never used as a value) helper the sink sits in, for which every call site passes a positive constant
+	// (`fetchLimited(ctx, src, d, maxManifestSize)`: the cap is the caller's, the comparison the helper's).
+	closedSites := func(g *ssa.Function) ([]*ssa.Call, []*ssa.Function, bool) {
+		if token.IsExported(g.Name()) || g.Parent() != nil {
+			return nil, nil, false
+		}
+		var calls []*ssa.Call
+		var fns []*ssa.Function
+		for _, F := range w.Funcs {
+			for _, b := range F.Blocks {
+				for _, in := range b.Instrs {
+					if mc, ok := in.(*ssa.MakeClosure); ok && mc.Fn == ssa.Value(g) {
+						return nil, nil, false
+					}
+					ci, ok := in.(ssa.CallInstruction)
+					if !ok {
+						continue
+					}
+					for _, a := range ci.Common().Args {
+						if a == ssa.Value(g) {
+							return nil, nil, false
+						}
+					}
+					if ci.Common().StaticCallee() != g {
+						continue
+					}
+					call, isCall := in.(*ssa.Call)
+					if !isCall || len(call.Call.Args) != len(g.Params) {
+						return nil, nil, false
+					}
+					calls = append(calls, call)
+					fns = append(fns, F)
+				}
+			}
+		}
+		return calls, fns, len(calls) > 0
+	}
+	capped := func(st site) bool {
+		fi := w.Info(st.fn)
+		d := desc(st.d)
+		pre := "LE(" + d + ".Size,"
+		for l := range fi.GuardsOf(st.call) {
+			if !strings.HasPrefix(l, pre) {
+				continue
+			}
+			k := strings.TrimSuffix(l[len(pre):], ")")
+			if v, ok := parseConstInt(k); ok && v > 0 {
+				return true
+			}
+			for i, q := range st.fn.Params {
+				if k != "param:"+q.Name() {
+					continue
+				}
+				calls, _, closed := closedSites(st.fn)
+				all := closed
+				for _, call := range calls {
+					if v, ok := parseConstInt(desc(call.Call.Args[i])); !ok || v <= 0 {
+						all = false
+					}
+				}
+				if all {
+					return true
+				}
+			}
+		}
+		return false
+	}
+	// a sink on a parameter of an unexported helper that does not cap it itself is an obligation of the helper's callers
 	for depth := 0; depth < 3; depth++ {
 		var next []site
 		for _, st := range sites {
 			pi := -1
-			if p, ok := st.d.(*ssa.Parameter); ok && !token.IsExported(st.fn.Name()) && st.fn.Parent() == nil {
+			if p, ok := st.d.(*ssa.Parameter); ok && !capped(st) {
 				for i, q := range st.fn.Params {
 					if q == p {
 						pi = i
@@ -1239,42 +1307,26 @@ func c12SizeCaps(c *Ctx) {
 				next = append(next, st)
 				continue
 			}
-			found := false
-			for _, F := range w.Funcs {
-				for _, ci := range allCalls(F) {
-					if call, ok := ci.(*ssa.Call); ok && staticCallee(call) == st.fn && len(call.Call.Args) == len(st.fn.Params) {
-						next = append(next, site{F, call, call.Call.Args[pi]})
-						found = true
-					}
-				}
-			}
-			if !found {
+			calls, fns, closed := closedSites(st.fn)
+			if !closed {
 				next = append(next, st)
+				continue
+			}
+			for i, call := range calls {
+				next = append(next, site{fns[i], call, call.Call.Args[pi]})
 			}
 		}
 		sites = next
 	}
 	for _, st := range sites {
 		fn, call := st.fn, st.call
-		fi := w.Info(fn)
 		n++
 		c.Evals++
 		d := desc(st.d)
-		g := fi.GuardsOf(call)
-		ok2 := false
-		for l := range g {
-			if strings.HasPrefix(l, "LE("+d+".Size,const:") {
-				var v int64
-				fmt.Sscan(strings.TrimSuffix(strings.TrimPrefix(l, "LE("+d+".Size,const:"), ")"), &v)
-				if v > 0 {
-					ok2 = true
-				}
-			}
-		}
-		c.Check(ok2, fmt.Sprintf("size-cap/%s#%d", fnName(fn), n), rule, w.InstrPos(call), "the fetch of "+d+" is not preceded by a cap on "+d+".Size; guards: "+summarizeLabels(g, 5))
+		c.Check(capped(st), fmt.Sprintf("size-cap/%s#%d", fnName(fn), n), rule, w.InstrPos(call), "the fetch of "+d+" is not preceded by a cap on "+d+".Size; guards: "+summarizeLabels(w.Info(fn).GuardsOf(call), 5))
 	}
-	if n < 2 {
-		c.Unk("size-cap#count", "vacuity guard: the registry package fetches at least a manifest and a blob", "-", fmt.Sprintf("%d found", n))
+	if n < 1 {
+		c.Unk("size-cap#count", "vacuity guard: the registry package fetches content by descriptor", "-", fmt.Sprintf("%d found", n))
 	}
 }
 
